@@ -594,6 +594,19 @@ func compiledProgramReadOnly(r *an.Run, rule string) {
 					}
 					break
 				}
+				if p, isParam := o.(*ssa.Parameter); isParam && reslicedOnTheWay(c.Common().Args[0]) {
+					// x = p[:0]; x = append(x, …): an in-place filter of the caller's slice. Where that slice
+					// comes from decides whether shared memory is overwritten.
+					from := ssa.Value(p)
+					if a := an.Actual(p); a != nil {
+						from = a
+					}
+					if _, fresh := an.Root(from).(*ssa.MakeSlice); !fresh {
+						nBad++
+						r.Fail(short(f)+"|append|in-place:"+p.Name(), c.Pos(), "%s, reachable while matching/replacing, filters the slice %s in place (append into %s[:0]): the slice was handed in (at the only call site: %s) and may be held by the match data or the compiled program, whose other holders then see it compacted", short(f), p.Name(), p.Name(), an.Describe(from))
+					}
+					continue
+				}
 				if _, isLoad := o.(*ssa.UnOp); !isLoad {
 					continue // a fresh slice, nil, a parameter slice, a call result
 				}
